@@ -23,9 +23,14 @@ SECTION = {"setup.cfg": "[metadata]\nname = demo\n\n[bumpver]\ncurrent_version =
            "pycalver.toml": "[pycalver]\ncurrent_version = \"v202010.1001\"\nversion_pattern = \"{pycalver}\"\n"}
 
 
+BIG = "".join("# line %04d of a long hand-written preamble ........................................\n" % k for k in range(90))       # ~7 KiB
+
+
 def content(rng, f, cls, variant=None):
     if cls == "empty":
         return b""
+    if cls == "section" and rng.random() < 0.15:
+        return (BIG + SECTION[f]).encode("utf-8")           # the section far down in a big file
     text = (rng.choice(UNRELATED[f]) if variant is None else UNRELATED[f][variant % len(UNRELATED[f])]) if cls == "unrelated" else SECTION[f]
     style = rng.choice(["lf", "lf", "crlf", "nonl", "crlf-nonl", "comment"])
     if "nonl" in style:
